@@ -345,6 +345,14 @@ func GenTopLevel(r *RNG, depth int) (stmts []string, globals []string, feat map[
 	// initialised from an untyped constant has its own type whatever an earlier call left in that stack cell
 	g.w("func scaleF(f float64) float64 {\n\tg2 := f * 2.0\n\tvar b2 byte = 200\n\tb2 += 100\n\treturn g2 + float64(b2)\n}\n")
 	g.w("func halfI(n int) int {\n\tk := 2\n\tj := 300\n\treturn n/k + j\n}\n")
+	// function types without a result: as the last statement of a chunk the type is followed by the end of the input
+	if r.Bool() {
+		g.f("result-less-func-type")
+		g.w("type handler func(int)\n")
+		g.w("var cb func(int)\n")
+		g.w("var hv handler\n")
+		g.w("println(\"cb\", cb == nil, hv == nil)\n")
+	}
 	nh := r.Intn(3)
 	for h := 0; h < nh; h++ {
 		g.w("func h%d(p int) int {\n", h)
